@@ -617,11 +617,3 @@ example : daysFromCivil 1970 1 1 = 0 ∧ daysFromCivil 2000 2 29 = 11016 ∧
 
 end Jl.Time
 
-#print axioms Jl.Time.civilFromDays_daysFromCivil
-#print axioms Jl.Time.daysFromCivil_civilFromDays
-#print axioms Jl.Time.civilOf_seconds
-#print axioms Jl.Time.parseZone_formatZone
-#print axioms Jl.Time.C14_parse_format
-#print axioms Jl.Time.C14_fraction_general
-#print axioms Jl.Time.C14_fraction_format
-#print axioms Jl.Time.C14_offset_independent
